@@ -126,4 +126,76 @@ theorem evict_off_gone (s : St) (handle : Nat) : persistentName (evictOff s hand
 theorem evict_on_found (s : St) (handle : Nat) (h : Hier) (name : Bytes) : persistentName (evictOn s handle h name) handle = some name := by
   simp [persistentName, evictOn]
 
+/-! ### whole histories -/
+
+/-- a persistent object stays over ANY history in which no event clears its hierarchy -/
+theorem persistent_survives_history (handle : Nat) (h : Hier) (name : Bytes) : ∀ (ops : List Op) (s : St),
+    (handle, h, name) ∈ s.persistent → (∀ op ∈ ops, flushes op h = false) → (handle, h, name) ∈ (ops.foldl step s).persistent := by
+  intro ops
+  induction ops with
+  | nil => intro s hm _; exact hm
+  | cons op rest ih =>
+    intro s hm hall
+    simp only [List.foldl]
+    exact ih (step s op) (persistent_survives s op handle h name hm (hall op (by simp))) (fun o ho => hall o (by simp [ho]))
+
+/-- once its hierarchy was cleared, no later history brings the object back (only EvictControl adds) -/
+theorem persistent_cleared_history (handle : Nat) (h : Hier) (name : Bytes) : ∀ (ops : List Op) (s : St),
+    (handle, h, name) ∉ s.persistent → (handle, h, name) ∉ (ops.foldl step s).persistent := by
+  intro ops
+  induction ops with
+  | nil => intro s hm; exact hm
+  | cons op rest ih =>
+    intro s hm
+    simp only [List.foldl]
+    refine ih (step s op) ?_
+    intro hmem
+    simp only [step] at hmem
+    exact hm (List.mem_filter.mp hmem).1
+
+/-- the slot counter never exceeds the advertised number, whatever is loaded, flushed or happens otherwise -/
+theorem used_bounded_load (s : St) (h : s.used ≤ Gen.MAX_LOADED_OBJECTS) : (load s).1.used ≤ Gen.MAX_LOADED_OBJECTS := by
+  simp only [load]; split <;> simp <;> omega
+theorem used_bounded_flush (s : St) (h : s.used ≤ Gen.MAX_LOADED_OBJECTS) : (flush s).used ≤ Gen.MAX_LOADED_OBJECTS := by
+  simp only [flush]; omega
+theorem used_bounded_step (s : St) (op : Op) (h : s.used ≤ Gen.MAX_LOADED_OBJECTS) : (step s op).used ≤ Gen.MAX_LOADED_OBJECTS := by
+  cases op <;> simp [step] <;> omega
+
+theorem flushes_empty : ∀ (n : Nat) (s : St), ((List.range n).foldl (fun s _ => flush s) s).used = s.used - n := by
+  intro n
+  induction n with
+  | zero => intro s; simp
+  | succ k ih =>
+    intro s
+    rw [List.range_succ, List.foldl_append]
+    simp only [List.foldl]
+    generalize hs' : (List.range k).foldl (fun s _ => flush s) s = s'
+    have hu : s'.used = s.used - k := by rw [← hs']; exact ih s
+    simp only [flush, hu]; omega
+
+/-- **after flushing all handles the advertised number of objects can be loaded again**: from ANY occupancy, flushing
+    every loaded object and then loading `MAX_LOADED_OBJECTS` times fills exactly all slots, and each of those loads
+    succeeds (`load_used`), the next one is refused (`full_refuses`) -/
+theorem flush_all_reload_all (s : St) :
+    ((List.range Gen.MAX_LOADED_OBJECTS).foldl (fun s _ => (load s).1)
+      ((List.range s.used).foldl (fun s _ => flush s) s)).used = Gen.MAX_LOADED_OBJECTS := by
+  have h0 := flushes_empty s.used s
+  have := loads_until_full Gen.MAX_LOADED_OBJECTS ((List.range s.used).foldl (fun s _ => flush s) s) (by rw [h0]; omega)
+  rw [this, h0]; omega
+
+/-- evicting one handle does not disturb another -/
+theorem evict_off_other (s : St) (handle other : Nat) (hne : other ≠ handle) :
+    persistentName (evictOff s handle) other = persistentName s other := by
+  simp only [persistentName, evictOff]
+  congr 1
+  rw [List.find?_filter]
+  congr 1
+  funext x
+  by_cases hxo : x.1 = other
+  · simp [hxo, hne]
+  · simp [hxo]
+
+example : (load ((List.range 2).foldl (fun s _ => flush s) ({ used := 2 } : St))).2 = true := by decide
+example : (step (evictOn {} 0x81000001 .platform [1]) .clear).persistent = [(0x81000001, .platform, [1])] := by decide
+
 end TpmVerif.Props.C12
